@@ -4,7 +4,7 @@
 (* profiles (C11).  Small exact rationals are pairs <<num, den>> of TLC    *)
 (* integers (windows are short, so everything fits in 32 bits).            *)
 (***************************************************************************)
-EXTENDS Integers, Sequences, FiniteSets, Residues
+EXTENDS Integers, Sequences, FiniteSets, Residues, Geometry
 
 Q(a, b) == <<a, b>>                       \* the rational a/b, b > 0
 QEq(x, y) == x[1] * y[2] = y[1] * x[2]
@@ -27,13 +27,11 @@ GroupDensity(seq, i, w, grp) == Q(CountIn(seq, i, i + w - 1, grp), w)
 
 \* documented placement: the window starting at residue i is reported at position i + floor((w-1)/2);
 \* floor((w-1)/2) leading and ceil((w-1)/2) trailing positions are 0
-LeadDoc(w)  == (w - 1) \div 2
-TrailDoc(w) == (w - 1) - (w - 1) \div 2
+\* (LeadDoc, TrailDoc, FlankStartCode, FlankEndCode: module Geometry; ProofsGeometry proves FlanksAddUp and
+\* CodePlacementIsDocumented for every w <= N)
 ProfileDoc(f(_), N, w) ==        \* f(i): value of the window starting at i
   [j \in 1..N |-> IF j - LeadDoc(w) >= 1 /\ j - LeadDoc(w) <= N - w + 1 THEN f(j - LeadDoc(w)) ELSE QZero]
 \* the implementation's flank arithmetic
-FlankStartCode(N, w) == LET flank == w \div 2  nb == N - w + 1 IN IF 2 * flank + nb = N THEN flank ELSE flank - 1
-FlankEndCode(N, w) == w \div 2
 ProfileCode(f(_), N, w) ==
   [j \in 1..N |-> IF j > FlankStartCode(N, w) /\ j <= FlankStartCode(N, w) + (N - w + 1)
                   THEN f(j - FlankStartCode(N, w)) ELSE QZero]
@@ -76,18 +74,9 @@ Reduce(m, seq) == [i \in 1..Len(seq) |-> m[seq[i]]]
 (***************************************************************************)
 (* Complexity profiles.                                                    *)
 (***************************************************************************)
-NumWindows(N, w, s) == (N - w) \div s + 1          \* w <= N, s >= 1
-WindowStart(k, s) == (k - 1) * s + 1                \* 1-based start of window k = 1..K
+\* NumWindows, WindowStart and the pieces of the position row: module Geometry (ProofsGeometry: WindowsFit, PositionRow)
 \* the position row as the implementation distributes K points over 1..N
-PosRowCode(N, K) ==
-  LET spacing == N \div K
-      rem == N - spacing * K
-      fs == IF rem % 2 = 0 THEN rem \div 2 ELSE (rem - 1) \div 2
-      fe == IF rem % 2 = 0 THEN rem \div 2 ELSE (rem + 1) \div 2
-      start == (fs + 1) + spacing \div 2
-      stop == ((N + 1) - fe) + spacing \div 2                \* exclusive
-      cnt == IF stop <= start THEN 0 ELSE (stop - start + spacing - 1) \div spacing
-  IN [j \in 1..cnt |-> start + (j - 1) * spacing]
+PosRowCode(N, K) == [j \in 1..PosCount(N, K) |-> PosStart(N, K) + (j - 1) * PosSpacing(N, K)]
 PosRowOK(row, N, K) == /\ Len(row) = K
                        /\ \A j \in 1..K : row[j] \in 1..N
                        /\ \A j \in 1..(K-1) : row[j] < row[j+1]
